@@ -687,6 +687,59 @@ func main(n : int) -> int {
 """ % (xs[0], xs[1], xs[2], ys[0], ys[1], k, k, k2, k3, k, calls), dict(shape=True, capture=True, expect_out="".join(P(v) for v in exp), expect_res="I0")))
     return out
 
+def enumred_family(rng):
+    """enumerator values defined through enumerators of OTHER enum types (declared before and after the one that uses them),
+    plain, valued and record-carrying, at every position: the value the reducer gives an enumerator (observed as `F::x + 0`) is its
+    position value (previous + 1, or the explicit expression), which is also what a variable holding the enumerator computes at
+    run time; expectations computed here"""
+    out = []
+    P = lambda v: "%d\r\n" % v
+    n = rng.range(3, 6)
+    items, vals, kinds = [], [], []
+    cur = -1
+    for i in range(n):
+        k = rng.weighted([("plain", 3), ("valued", 2), ("rec1", 3), ("rec2", 2)])
+        if k == "valued":
+            cur = cur + rng.range(2, 30)
+            items.append("I%d = %d" % (i, cur))
+        else:
+            cur += 1
+            items.append({"plain": "I%d", "rec1": "I%d { a : int; }", "rec2": "I%d { x : int; y : int; }"}[k] % i)
+        vals.append(cur); kinds.append(k)
+    def ctor(i):
+        return {"plain": "Opt::I%d", "valued": "Opt::I%d", "rec1": "Opt::I%d(7)", "rec2": "Opt::I%d(1, 2)"}[kinds[i]] % i
+    ops = [("+", lambda a, b: a + b), ("-", lambda a, b: a - b), ("*", lambda a, b: a * b)]
+    fitems, fvals, runtime = [], [], []
+    for j in range(n):
+        sym, fn = ops[rng.below(3)]; c = rng.range(1, 12)
+        if rng.chance(0.5):
+            fitems.append("f%d = Opt::I%d %s %d" % (j, j, sym, c)); fvals.append(fn(vals[j], c)); runtime.append(("v%d %s %d" % (j, sym, c), fn(vals[j], c)))
+        else:
+            fitems.append("f%d = %d %s Opt::I%d" % (j, c, sym, j)); fvals.append(fn(c, vals[j])); runtime.append(("%d %s v%d" % (c, sym, j), fn(c, vals[j])))
+    # distinct enumerator values are required inside one enum: drop clashes
+    seen, fi2, fv2 = set(), [], []
+    for it, v in zip(fitems, fvals):
+        if v not in seen:
+            seen.add(v); fi2.append(it); fv2.append(v)
+    a, b = rng.below(n), rng.below(n)
+    g0 = vals[a] * 1000 + fv2[0]
+    gitems = ["g0 = Opt::I%d * 1000 + F::%s" % (a, fi2[0].split(" ")[0]), "g1", "g2 = F::%s + Opt::I%d + %d" % (fi2[-1].split(" ")[0], b, 100000)]
+    gvals = [g0, g0 + 1, fv2[-1] + vals[b] + 100000]
+    decl_vars = "".join("    var v%d = %s;\n" % (i, ctor(i)) for i in range(n))
+    prints = "".join("    print(F::%s + 0);\n" % it.split(" ")[0] for it in fi2) + "".join("    print(G::g%d + 0);\n" % i for i in range(3)) + \
+             "".join("    print(%s);\n" % e for e, _ in runtime)
+    exp = fv2 + gvals + [v for _, v in runtime]
+    out.append(("shape_enum_cross_values", """
+enum F { %s }
+enum Opt { %s }
+enum G { %s }
+func main(n : int) -> int
+{
+%s%s    0
+}
+""" % (", ".join(fi2), ", ".join(items), ", ".join(gitems), decl_vars, prints), dict(shape=True, enumred=True, expect_out="".join(P(v) for v in exp), expect_res="I0")))
+    return out
+
 def arith_family(rng):
     """typed operators and implicit conversions on RUN-TIME operands (function parameters, so nothing is folded): every line of
     output is computed here independently, with C's semantics (truncating division, sign of %, wrap-free ranges)"""
@@ -781,7 +834,7 @@ func main(n : int) -> int {
 }
 """ % (a, b, a, a), dict(api=True))]
 
-FAMILIES = [tail_family, deeprec_family, alloc_family, exc_family, idx_family, api_family, shapes_family, builtins_family, arith_family, denote_family, effects_family, capture_family]
+FAMILIES = [tail_family, deeprec_family, alloc_family, exc_family, idx_family, api_family, shapes_family, builtins_family, arith_family, denote_family, effects_family, capture_family, enumred_family]
 
 def generate(seed, rounds=1):
     rng = Rng(seed)
